@@ -92,7 +92,7 @@ def run(tier):
     run = Run('C12', tier)
     from harness import c12lib
     path, sp = specs()
-    run.bounds = {'skeletons': len(c12lib.SKELETONS), 'slots_per_skeleton': '2..5, every subset is a placeholder set',
+    run.bounds = {'skeletons': len(c12lib.SKELETONS), 'slots_per_skeleton': '2..6, every subset is a placeholder set',
                   'value_count': 'n-1, n, n+1'}
     run.functions = ['QueryPlanner.prepare_steps/execute_steps/get_statement_info', 'PreparedStatementPlanner.*',
                      'planner.utils.get_query_params/fill_query_params/query_traversal', 'QueryPlanner.from_query (plan of the inlined text)']
